@@ -147,7 +147,7 @@ Section PatherRound.
   Variables (st : pstate) (q : Z) (truth : list dpath).
   Hypothesis Hoffered : pather_paths st q = truth.          (* e.g. by pather_offers_daemon_paths *)
   Hypothesis Hids : NoDup (map fst truth).                  (* the daemon reports each path once *)
-  Variables (cs : list cstate) (hasfs : list bool) (d : Z) (tape : list Z).
+  Variables (c : bool) (cs : list cstate) (hasfs : list bool) (d : Z) (tape : list Z).
   Hypothesis Hh : length hasfs = length cs.
   Hypothesis Hmax : Z.of_nat (length truth) <= max_i64.
   Hypothesis Hw : words tape.
@@ -156,7 +156,7 @@ Section PatherRound.
   Let seen (obs : list client_obs) := map (hops_out (map fst truth)) (to_cobs_list hasfs cs obs).
 
   Theorem pather_round_ok mss vss obs off rest :
-    pather_round st q cs d tape mss vss = ROk obs off rest ->
+    pather_round c st q cs d tape mss vss = ROk obs off rest ->
     C15_pather_round_ok truth (seen obs) 0 off = true.
   Proof.
     unfold pather_round. rewrite Hoffered. intros H. apply pather_oracle_of_round_oracle; [exact Hids|].
@@ -164,7 +164,7 @@ Section PatherRound.
   Qed.
 
   Theorem pather_round_nomeas_ok mss vss obs rest :
-    pather_round st q cs d tape mss vss = RNoMeas obs rest ->
+    pather_round c st q cs d tape mss vss = RNoMeas obs rest ->
     C15_pather_round_ok truth (seen obs) 4 0 = true.
   Proof.
     unfold pather_round. rewrite Hoffered. intros H. apply pather_oracle_of_round_oracle; [exact Hids|].
@@ -172,7 +172,7 @@ Section PatherRound.
   Qed.
 
   Theorem pather_round_nopath_ok mss vss post resets rest :
-    pather_round st q cs d tape mss vss = RNoPath post resets rest ->
+    pather_round c st q cs d tape mss vss = RNoPath post resets rest ->
     C15_pather_round_ok truth
       (map (hops_out (map fst truth)) (map (fun hs : bool * cstate => idle_cobs (fst hs) (snd hs)) (combine hasfs cs))) 1 0 = true.
   Proof.
@@ -181,8 +181,8 @@ Section PatherRound.
   Qed.
 
   (* the participating clients probe over pairwise distinct paths of the daemon *)
-  Theorem pather_distinct c asg resets rest :
-    assign (map snd truth) cs c d tape = AOk asg resets rest ->
+  Theorem pather_distinct c0 asg resets rest :
+    assign (map snd truth) cs c0 d tape = AOk asg resets rest ->
     NoDup (map (fun p => nth p (map fst truth) (-1)) (somes asg))
     /\ (forall p, In p (somes asg) -> In (nth p truth (-1, -1)) truth)
     /\ (length (somes asg) <= length truth)%nat.
